@@ -672,19 +672,22 @@ class cst(exp):
 
     @_checkarg_numeric
     def __rshift__(self, n):
-        self.sf = False  # rshift implements logical right shift
+        # rshift implements logical right shift: of the unsigned value
+        # (the operand object keeps its own sign flag)
         if n._is_cst:
-            return cst(self.value >> n.v, self.size)
+            return cst(self.v >> n.v, self.size)
         else:
-            return exp.__rshift__(self, n)
+            return exp.__rshift__(self.unsigned(), n)
 
     @_checkarg_numeric
     def __floordiv__(self, n):
-        self.sf = True  # floordiv implements arithmetic right shift
+        # floordiv implements arithmetic right shift: of the signed value
+        # (read from a flagged copy, the operand object keeps its own sign flag)
+        s = self.signed()
         if n._is_cst:
-            return cst(self.value >> n.v, self.size)
+            return cst(s.value >> n.v, self.size)
         else:
-            return exp.__floordiv__(self, n)
+            return exp.__floordiv__(s, n)
 
     @_checkarg_numeric
     def __radd__(self, n):
